@@ -1,7 +1,7 @@
 """C13 - editing a model invalidates everything derived from the old model.
 
 Small-scope exhaustive histories: ALL operation sequences up to a length bound
-over an alphabet of 17 operations chosen to cross every cache boundary
+over an alphabet of 18 operations chosen to cross every cache boundary
 (LP objective <-> quadratic objective, flip sense, add linear / nonlinear
 constraint, add a list of constraints introducing a new variable, tighten /
 change a bound, solve with auto / SLSQP / trust-constr / linprog / BFGS (a method that ignores bounds), read
@@ -81,7 +81,7 @@ BASES = {
         "bvar": "x[0]",
     },
 }
-OPS = ["min-lin", "min-quad", "max", "max-lin", "flip-same-object", "add-lin", "add-list", "add-nl", "add-mixed-list", "tighten", "rebound", "solve-auto", "solve-SLSQP",
+OPS = ["min-lin", "min-quad", "max", "max-lin", "flip-same-object", "add-lin", "add-list", "add-nl", "add-mixed-list", "add-list-with-invalid-entry", "tighten", "rebound", "solve-auto", "solve-SLSQP",
        "solve-trust-constr", "solve-linprog", "solve-BFGS", "read"]
 OBS = {"solve-auto", "solve-SLSQP", "solve-trust-constr", "solve-linprog", "solve-BFGS", "read"}
 
@@ -152,6 +152,17 @@ def apply(op, M, P, b):
             c = b.rel(r)
             lst.extend(c if isinstance(c, list) else [c])
         P.subject_to(lst)
+    elif op == "add-list-with-invalid-entry":
+        # subject_to([good, <not a constraint>]) raises; whatever part of the list the problem kept is part of its definition now
+        before = len(P.constraints)
+        try:
+            P.subject_to([b.rel(base["c_lin"]), "not a constraint"])
+        except Exception:
+            pass
+        if len(P.constraints) == before + 1:
+            M.constraints.append(base["c_lin"])
+        elif len(P.constraints) != before:
+            raise RuntimeError("unexpected number of constraints after a failed subject_to")
     elif op == "add-nl":
         M.constraints.append(base["c_nl"])
         P.subject_to(b.rel(base["c_nl"]))
